@@ -3,7 +3,44 @@
 // 2 = other std::exception, 3 = unknown exception (playing stops at the first exception).
 #include "common.h"
 #include "rec.h"
+#include "reuse.h"
 #include <potassco/aspif_text.h>
+// Writer REUSE: initProgram() starts a new program on the same AspifTextOutput object, which must then render like a fresh writer.
+// For every other case that starts with an initProgram call (same hash as reuse::primed, so deterministic and replayable) an earlier
+// program is rendered through the writer first and its text thrown away: names for atoms 1..8, a conditional #show, a theory atom with a
+// conditional element on atom 7, a directive-level theory atom, and (variant by hash bit 18) a second, ABANDONED step whose buffered
+// directives were never written. Invisible for a correct writer, so neither the model nor the oracle depends on it.
+static void primeWriter(Potassco::AspifTextOutput& out, bool abandon) {
+	using namespace Potassco;
+	out.initProgram(abandon);
+	out.beginStep();
+	static const char* names[] = {"pa", "pb", "pc(1)", "pd", "pe", "pf", "pg", "ph"};
+	for (int i = 0; i != 8; ++i) { Lit_t l = i + 1; out.output(toSpan(names[i], std::strlen(names[i])), toSpan(&l, 1)); }
+	Lit_t c2[] = {1, -2}; out.output(toSpan("sh", 2), toSpan(c2, 2));
+	out.theoryTerm(0, toSpan("t", 1)); out.theoryTerm(1, 7); out.theoryTerm(2, toSpan("u", 1));
+	Id_t ts[] = {1, 2}; Lit_t ec[] = {3, -4};
+	out.theoryElement(0, toSpan(ts, 2), toSpan(ec, 2));
+	Id_t es[] = {0};
+	out.theoryAtom(9, 0, toSpan(es, 1));
+	out.theoryAtom(0, 2, toSpan(es, 1));
+	Atom_t h[] = {10}; Lit_t b[] = {9, -1};
+	out.rule(Head_t::Choice, toSpan(h, 1), toSpan(b, 2));
+	out.endStep();
+	if (abandon) {
+		out.beginStep();
+		Lit_t l = 11; out.output(toSpan("late", 4), toSpan(&l, 1));
+		out.theoryTerm(3, 42); Id_t t3[] = {3};
+		out.theoryElement(1, toSpan(t3, 1), toSpan(ec, 2));
+		Id_t e1[] = {1}; out.theoryAtom(12, 0, toSpan(e1, 1));
+		out.rule(Head_t::Disjunctive, toSpan(h, 1), toSpan(b, 2));
+		out.external(13, Value_t::True);
+	}
+}
+static unsigned long long caseHash(const Case& c) {
+	unsigned long long h = 1469598103934665603ull;
+	for (size_t i = 0; i != c.v.size(); ++i) { h = (h ^ static_cast<unsigned long long>(c.v[i])) * 1099511628211ull; }
+	return h;
+}
 int main() {
 	Case c; Obs o;
 	while (readCase(c)) {
@@ -11,6 +48,10 @@ int main() {
 		int status = 0;
 		{
 			Potassco::AspifTextOutput out(os);
+			if (!c.v.empty() && c.v[0] == 1 && reuse::primed(c)) {
+				try { primeWriter(out, ((caseHash(c) >> 18) & 1u) != 0); } catch (...) { }
+				os.str(std::string());
+			}
 			try { while (playCall(c, out)) { ; } }
 			catch (const std::logic_error&) { status = 1; }
 			catch (const std::exception&)   { status = 2; }
